@@ -263,20 +263,30 @@ class EvalMixin(object):
             return tm.mul(ta, tb)
         if op == '/':
             both_int = ta.sort in (INT, BOOL) and tb.sort in (INT, BOOL)
-            self.div0_check(tb, line)
+            fr = self.frame
+            if not self.in_spec and fr.func is not None and not getattr(fr.func.module, 'is_pyx', False) and not tb.is_const():
+                # numpy float64 semantics in .py modules: x/0 is +-inf or nan (RuntimeWarning), never an exception
+                zero = tm.mk_int(0) if tb.sort == INT else tm.mk_real(0)
+                if self.branch(tm.eq(tb, zero)):
+                    return self.nonfinite_arith('/', INF if True else 0, 0.0) if False else self._div_by_zero(ta)
+                return tm.rdiv(ta, tb)
+            if not self.in_spec:
+                self.div0_check(tb, line)
             if both_int and n is not None and self.is_cint_expr(n.l) and self.is_cint_expr(n.r):
                 return self.cdiv(tm.bool_to_int(ta), tm.bool_to_int(tb))
             return tm.rdiv(ta, tb)
         if op == '//':
-            self.div0_check(tb, line)
+            if not self.in_spec:
+                self.div0_check(tb, line)
             if ta.sort == INT and tb.sort == INT:
                 if n is not None and self.is_cint_expr(n.l) and self.is_cint_expr(n.r):
                     return self.cdiv(ta, tb)
                 # python floor division (divisor sign split)
-                return tm.ite(tm.gt(tb, tm.mk_int(0)), tm.idiv_floor(ta, tb), tm.neg(tm.idiv_floor(tm.neg(ta), tm.neg(tb))) if False else tm.idiv_floor(tm.neg(ta), tm.neg(tb)))
+                return tm.ite(tm.gt(tb, tm.mk_int(0)), tm.idiv_floor(ta, tb), tm.idiv_floor(tm.neg(ta), tm.neg(tb)))
             return tm.to_real(tm.to_int_floor(tm.rdiv(ta, tb)))
         if op == '%':
-            self.div0_check(tb, line)
+            if not self.in_spec:
+                self.div0_check(tb, line)
             if ta.sort == INT and tb.sort == INT:
                 if n is not None and self.is_cint_expr(n.l) and self.is_cint_expr(n.r):
                     return self.cmod(ta, tb)
@@ -287,6 +297,14 @@ class EvalMixin(object):
         if op == '**':
             return self.power(ta, tb, line)
         raise Unsupported('binary op %s on terms' % op)
+
+    def _div_by_zero(self, ta):
+        zero = tm.mk_int(0) if ta.sort == INT else tm.mk_real(0)
+        if self.branch(tm.gt(ta, zero)):
+            return INF
+        if self.branch(tm.lt(ta, zero)):
+            return -INF
+        return float('nan')
 
     def cdiv(self, a, b):
         return tm.ite(tm.ge(a, tm.mk_int(0)), tm.idiv_floor(a, b), tm.neg(tm.idiv_floor(tm.neg(a), b)))
@@ -360,6 +378,19 @@ class EvalMixin(object):
             if sb == 0:
                 return a
             return INF if sa * sb > 0 else -INF
+        if op == '**':
+            if _is_nonfinite(a) and not _is_nonfinite(b):
+                sb = sign_of(b)
+                if sb == 0:
+                    return tm.mk_real(1)
+                if sb < 0:
+                    return tm.mk_real(0)
+                if a > 0:
+                    return INF
+                if isinstance(b, int) or (isinstance(b, T) and b.is_const() and Fraction(b.value()).denominator == 1):
+                    bv = b if isinstance(b, int) else int(b.value())
+                    return INF if bv % 2 == 0 else -INF
+                raise Unsupported('(-inf) ** symbolic')
         raise Unsupported('non-finite arithmetic %s' % op)
 
     # ------------------------------------------------------------------ comparisons
